@@ -270,6 +270,14 @@ func faultBases() []Session {
 		[]DOp{{Op: "exec", R: "r1"}, {Op: "exec", R: "r2"}, {Op: "exec", R: "r3"}, {Op: "joinall"}, {Op: "exec", R: "r4"}, {Op: "join", R: "r4"}, {Op: "close"}},
 		[]SOp{{Op: "expectws", R: "r1"}, {Op: "expectws", R: "r2"}, {Op: "expectws", R: "r3"}, {Op: "done", R: "r3", X: 3}, {Op: "err", R: "r2", SF: true}, {Op: "done", R: "r1", X: 1},
 			{Op: "expectws", R: "r4"}, {Op: "done", R: "r4", X: 4}, {Op: "expectdone"}}), "f-overlap-3-error"))
+	// "resubmitted run": run r1 is waiting for its result when r1 is submitted again; the second
+	// Execute is refused ("duplicate run ID": it registers nothing and must remove nothing), and only
+	// then does the stream deliver the result - or break. The first Execute must still be released.
+	out = append(out, unhealthy(hs("", 3,
+		[]DOp{{Op: "exec", R: "r1", From: true}, {Op: "awaitws", R: "r1"}, {Op: "exec", R: "r1", To: true, From: true}, {Op: "join", R: "r1"}, {Op: "mark", N: 1},
+			{Op: "joinall"}, {Op: "exec", R: "r2"}, {Op: "join", R: "r2"}, {Op: "close"}},
+		[]SOp{{Op: "expectws", R: "r1"}, {Op: "expectmark", N: 1}, {Op: "sig", R: "r1"}, {Op: "done", R: "r1", X: 1},
+			{Op: "expectws", R: "r2"}, {Op: "done", R: "r2", X: 2}, {Op: "expectdone"}}), "f-resubmit"))
 	out = append(out, unhealthy(hs("", 1, []DOp{{Op: "exec", R: "r1"}, {Op: "join", R: "r1"}, {Op: "exec", R: "r2"}, {Op: "join", R: "r2"}, {Op: "close"}},
 		[]SOp{{Op: "expect", N: 2}, {Op: "done1", X: 1}, {Op: "expect", N: 3}, {Op: "done1", X: 2}}), "f-v1-serial-2"))
 	return out
@@ -331,6 +339,12 @@ func FaultJobs(rng *rand.Rand, thorough bool) []FaultJob {
 				out = append(out, FaultJob{Job{Session: base, Transport: tr(), ChunkSeed: rng.Int63(), WriteFailAfter: -1, TimeoutMs: 1500,
 					Fault: &f}, "c08-corrupt"})
 			}
+		}
+	}
+	// the undamaged transcripts as well (for "resubmitted run": the result is simply delivered)
+	for _, base := range faultBases() {
+		for _, t := range []string{"pipe", "buf"} {
+			out = append(out, FaultJob{Job{Session: base, Transport: t, ChunkSeed: rng.Int63(), WriteFailAfter: -1, TimeoutMs: 1500}, "c08-intact"})
 		}
 	}
 	// unsupported versions, bad schema
